@@ -40,11 +40,25 @@ def shapes(rng):
 
 
 def hx_reader(hx, inputs):
-    r = subprocess.run([hx, "reader"], input="\n".join(json.dumps(x, separators=(",", ":")) for x in inputs) + "\n",
-                       stdout=subprocess.PIPE, stderr=subprocess.PIPE, text=True, timeout=1800)
-    if r.returncode != 0:
-        raise core.ToolError("hx reader failed: " + r.stderr[-2000:])
-    ev = [json.loads(l) for l in r.stdout.splitlines() if l.strip()]
+    """a decode that does not return within 3 s is data (outcome `timeout`), not a tool failure: the recorder's watchdog ends
+    the process with status 3 naming the input, the run resumes after it"""
+    payload = "\n".join(json.dumps(x, separators=(",", ":")) for x in inputs) + "\n"
+    ev, skip = [], 0
+    while True:
+        r = subprocess.run([hx, "reader", "--skip", str(skip)], input=payload, stdout=subprocess.PIPE, stderr=subprocess.PIPE, text=True, timeout=1800)
+        ev += [json.loads(l) for l in r.stdout.splitlines() if l.strip()]
+        if r.returncode == 0:
+            break
+        m = re.search(r"HX-TIMEOUT index=(\d+)", r.stderr) if r.returncode == 3 else None
+        if not m:
+            raise core.ToolError("hx reader failed: " + r.stderr[-2000:])
+        idx = int(m.group(1))
+        x = inputs[idx]
+        ev.append({"ev": "rdecode", "bytes": x["bytes"], "script": x.get("script", []), "calls": [], "consumed": 0, "out": {"ok": 2}, "outcome": "panic",
+                   "timeout": 1, "hard": 0, "plain": {"ok": 2}, "again": {"ok": 2}, "tag": x.get("tag", "")})
+        skip = idx + 1
+        if skip >= len(inputs):
+            break
     if len(ev) != len(inputs):
         raise core.ToolError("reader recorder lost events")
     return ev
